@@ -68,16 +68,17 @@ PROPS = {
         ],
     },
     'C12': {
-        'units': ['unitI'],
-        'obligations': ['I.emit_wasm'],
+        'units': ['unitI', 'unitE'],
+        'obligations': ['I.emit_wasm', 'E.gc.run', 'E.gc.sweep'],
         'assumptions': ['A-deps', 'A-std', 'A-iter', 'A-ext', 'A-extract', 'A-verus'],
         'rules': 'R1 R2 R4c (the custom-section loop of emit_wasm replaced by its summary contract) R6; panic mode: absent',
         'claimed': [
             'Module::emit_wasm (whole real function): leaves every field of the module as it was, custom sections included (emit twice / repeated emit); writes, after all standard sections, exactly one section per live non-.debug custom section in arena order with the same name and bytes',
+            'gc::run (whole real function, unit E) and its sweep bodies leave module.customs untouched',
         ],
         'unclaimed': [
             'raw capture at parse (Payload::CustomSection arm) and the body of the emission loop (dyn CustomSection, str::starts_with): assumed summary + bounded stand-in',
-            'ModuleCustomSections (dyn Any downcasts) and the GC frame on customs: bounded stand-in only',
+            'ModuleCustomSections (dyn Any downcasts): bounded stand-in only',
         ],
         'standins': [
             {'fn': 'custom-section capture, emission loop body, gc', 'argv': ['customs'],
